@@ -6,7 +6,7 @@
    [Bad] (blank, comment, wrong field count, non-numeric field: read_file skips it) or
    [Line] with the seven fields minus the timestamp.  The random pick inside one size
    (_roll_random) is the input [r]. *)
-From PV Require Import Bytes.
+From PV Require Import Bytes C43_gen.
 Open Scope Z_scope.
 
 Inductive fline :=
@@ -18,14 +18,14 @@ Definition bit_length (n : Z) : Z := if n =? 0 then 0 else Z.log2 (Z.abs n) + 1.
 
 Definition entry := (Z * Z)%type.        (* (generator, modulus) *)
 
-(* the first rejection test of _parse_modulus:
+(* the first rejection test of _parse_modulus, thresholds from Gen/C43_gen.v (read from the source):
    mod_type < 2 or tests < 4 or (tests & 4 and tests < 8 and tries < 100) *)
 Definition weak (mod_type tests tries : Z) : bool :=
-  (mod_type <? 2) || (tests <? 4)
-  || (negb (Z.land tests 4 =? 0) && (tests <? 8) && (tries <? 100)).
+  (mod_type <? min_type) || (tests <? min_tests)
+  || (negb (Z.land tests mr_bit =? 0) && (tests <? mr_tests_below) && (tries <? mr_min_tries)).
 
 (* the second: (bl != size) and (bl != size + 1) *)
-Definition wrong_length (size bl : Z) : bool := negb (bl =? size) && negb (bl =? size + 1).
+Definition wrong_length (size bl : Z) : bool := negb (bl =? size) && negb (bl =? size + len_slack).
 
 (* _parse_modulus: Some (bl, (generator, modulus)) when the line is stored in pack[bl] *)
 Definition parse_modulus (l : fline) : option (Z * entry) :=
@@ -34,7 +34,7 @@ Definition parse_modulus (l : fline) : option (Z * entry) :=
   | Line mod_type tests tries size generator modulus =>
       if weak mod_type tests tries then None
       else
-        let generator := if generator =? 0 then 2 else generator in
+        let generator := if generator =? 0 then default_generator else generator in
         let bl := bit_length modulus in
         if wrong_length size bl then None
         else Some (bl, (generator, modulus))
@@ -123,7 +123,8 @@ Definition get_modulus_gen (hm : bool) (p : pack) (mn prefer mx r : Z) : result 
 Definition get_modulus := get_modulus_gen true.
 
 (* ---- kex_gex.py: request normalisation ---------------------------------- *)
-(* smin / smax = KexGex.min_bits / max_bits (1024 / 8192) *)
+(* smin / smax = KexGex.min_bits / max_bits; the live values are gex_min_bits / gex_max_bits of
+   Gen/C43_gen.v *)
 Definition clamp_pref (smin smax prefer : Z) : Z :=
   let p := if smax <? prefer then smax else prefer in
   if p <? smin then smin else p.
@@ -140,6 +141,10 @@ Definition normalise_request_old (smin smax prefer : Z) : Z * Z * Z :=
 Definition gex_serve (p : pack) (smin smax mn prefer mx r : Z) : result entry :=
   let '(a, b, c) := normalise_request smin smax mn prefer mx in get_modulus p a b c r.
 
+(* with the class attributes of the source *)
+Definition gex_serve_live (p : pack) (mn prefer mx r : Z) : result entry :=
+  gex_serve p gex_min_bits gex_max_bits mn prefer mx r.
+
 (* ---- canonical outputs for the correspondence run ------------------------ *)
 Definition canon_entry (e : entry) : list Z :=
   [fst e; bit_length (snd e); snd e mod 2 ^ 64].
@@ -152,14 +157,18 @@ Definition canon_served (r : result entry) : list Z :=
   match r with Ok e => 0 :: canon_entry e | Raise x => [exn_code x] end.
 
 (* (file lines, (min, prefer, max), r) -> served entry, then the whole pack *)
+Definition run_limits (_ : Z) : list Z := [gex_min_bits; gex_max_bits; gex_preferred_bits].
+
 Definition run_get (c : list fline * (Z * Z * Z) * Z) : list Z :=
   let '(ls, (mn, prefer, mx), r) := c in
   let p := read_file ls in
   canon_served (get_modulus p mn prefer mx r) ++ [-1] ++ dump_pack p.
 
-(* (file lines, old_style, (smin, smax), (min, prefer, max), r) -> normalised request, served entry *)
-Definition run_gex (c : list fline * bool * (Z * Z) * (Z * Z * Z) * Z) : list Z :=
-  let '(ls, old, (smin, smax), (mn, prefer, mx), r) := c in
+(* (file lines, old_style, (min, prefer, max), r) -> normalised request, served entry;
+   the server limits are the generated gex_min_bits / gex_max_bits *)
+Definition run_gex (c : list fline * bool * (Z * Z * Z) * Z) : list Z :=
+  let '(ls, old, (mn, prefer, mx), r) := c in
+  let smin := gex_min_bits in let smax := gex_max_bits in
   let p := read_file ls in
   let '(a, b, c') := if old then normalise_request_old smin smax prefer
                      else normalise_request smin smax mn prefer mx in
